@@ -10,6 +10,13 @@ COMMON_NOTE = ('Trusted base: z3 4.x/5.1 (python3-vt), the symx forking engine, 
                'reals), sizes beyond the stated bounds, GPU, complex dtypes. ')
 
 CHECKS = {
+ 'C15': dict(
+    text='One step from an arbitrary host: host graph and replacement are chosen by solver variables from a universe built around repeated attachment nodes, repeated labels, nullary edges and ill-typed replacements; replace_edge is compared with its definition '
+         '(edge removed, externals identified in order, fresh distinct copies, labels and attachment order kept, frame untouched, wrong type rejected without side effects). Order independence: the rewriting order of each derivation tree is a symbolic schedule; '
+         'every linearisation is explored and all results must be isomorphic to each other and to FGGDerivation.derive(), whose assignment must be total and carry exactly the rule instances\' factors.',
+    note='Bounds: hosts with <=3 nodes and <=2 edges besides none, replacements with <=3 nodes, <=2 edges, <=2 distinct externals; derivation trees with <=4 rule instances over 2 HRGs (rules with two nonterminal edges, a rule used twice). '
+         'Outside: replacements listing an external node twice; label-name clashes between host and replacement.',
+    technique='bounded symbolic execution (symbolic structure choice, symbolic rewriting schedule)', design='5/C15'),
  'C16': dict(
     text='The sequence of public API calls is a vector of solver variables; the symbolic executor explores every sequence up to the length bound over a small universe designed around name clashes, id re-use and ill-typed arguments, pruning at states already '
          'explored at least as deeply. After every call the representation invariant is checked, a call that raised must leave every public observation unchanged, and copies must be equal, observation-equal (label tables, domains, factors) and independent. '
